@@ -385,6 +385,7 @@ def load_table(
                         delimiter=delimiter,
                         header=0 if header else None,
                         dtype=dtype,
+                        float_precision="round_trip",
                     )
                 else:
                     table = pd.read_table(
@@ -392,6 +393,7 @@ def load_table(
                         delimiter=delimiter,
                         header=0 if header else None,
                         dtype=dtype,
+                        float_precision="round_trip",
                     )
             except ValueError as exc:
                 if delimiter is None:
